@@ -1168,6 +1168,16 @@ fn streams_values(ctx: &mut Ctx) {
         (nm("O"), VVal::Null), (nm("O"), int("1")), (VTy::List(Box::new(nm("O"))), VVal::List(vec![])), (nm("O"), obj(vec![])), (nm("Int"), VVal::Var("x".into())),
     ];
     for (t, v) in &directed { value_case(ctx, t, v); }
+    // list literals given to a custom scalar are opaque (every constant is a value of `S`, nulls included, object
+    // literals with unique fields); at a list-typed position the items are typed
+    let lits: Vec<VVal> = vec![
+        VVal::List(vec![VVal::Null]), VVal::List(vec![int("1"), VVal::Null]), VVal::List(vec![VVal::List(vec![VVal::Null])]),
+        VVal::List(vec![obj(vec![("a", int("1")), ("a", int("2"))])]), obj(vec![("a", VVal::List(vec![VVal::Null]))]),
+        VVal::List(vec![]), VVal::List(vec![VVal::List(vec![]), VVal::Str]),
+    ];
+    for ty in [nm("S"), nn("S"), VTy::List(Box::new(nm("S"))), VTy::List(Box::new(nn("S"))), VTy::NonNullList(Box::new(nn("S")))] {
+        for v in &lits { value_case(ctx, &ty, v); }
+    }
     let n = if ctx.thorough { 40_000 } else { 3_500 };
     for _ in 0..n {
         let ty = gen_vty(ctx, 0);
